@@ -241,3 +241,77 @@ func PermuteValues(vs []reflect.Value) []reflect.Value {
 	permute(len(vs), func(i, j int) { vs[i], vs[j] = vs[j], vs[i] })
 	return vs
 }
+
+// MapIter replaces *reflect.MapIter (the result of reflect.Value.MapRange) with
+// an iterator that visits the entries in the order the current policy dictates.
+type MapIter struct {
+	native *reflect.MapIter
+	m      reflect.Value
+	keys   []reflect.Value
+	i      int
+}
+
+// MapRange replaces v.MapRange().
+func MapRange(v reflect.Value) *MapIter {
+	if mapMode == OrderNative {
+		return &MapIter{native: v.MapRange()}
+	}
+	return &MapIter{m: v, keys: PermuteValues(v.MapKeys()), i: -1}
+}
+
+func (it *MapIter) Next() bool {
+	if it.native != nil {
+		return it.native.Next()
+	}
+	for it.i++; it.i < len(it.keys); it.i++ {
+		if it.m.MapIndex(it.keys[it.i]).IsValid() { // deleted meanwhile: must not be produced
+			return true
+		}
+	}
+	return false
+}
+
+func (it *MapIter) Key() reflect.Value {
+	if it.native != nil {
+		return it.native.Key()
+	}
+	return it.keys[it.i]
+}
+
+func (it *MapIter) Value() reflect.Value {
+	if it.native != nil {
+		return it.native.Value()
+	}
+	return it.m.MapIndex(it.keys[it.i])
+}
+
+func (it *MapIter) Reset(v reflect.Value) {
+	if mapMode == OrderNative {
+		*it = MapIter{native: v.MapRange()}
+		return
+	}
+	*it = MapIter{m: v, keys: PermuteValues(v.MapKeys()), i: -1}
+}
+
+// MapsKeys / MapsValues / MapsAll replace maps.Keys / maps.Values / maps.All.
+func MapsKeys[M ~map[K]V, K comparable, V any](m M) iter.Seq[K] {
+	return func(yield func(K) bool) {
+		for k := range RangeMap(0, m) {
+			if !yield(k) {
+				return
+			}
+		}
+	}
+}
+
+func MapsValues[M ~map[K]V, K comparable, V any](m M) iter.Seq[V] {
+	return func(yield func(V) bool) {
+		for _, v := range RangeMap(0, m) {
+			if !yield(v) {
+				return
+			}
+		}
+	}
+}
+
+func MapsAll[M ~map[K]V, K comparable, V any](m M) iter.Seq2[K, V] { return RangeMap(0, m) }
